@@ -28,10 +28,18 @@ LEVEL_NOTE = ("Trusted: Lean kernel + standard axioms; hand-written engine model
 def streams(rng, tier, seed):
     n = 120 if tier == "quick" else 3000
     progs = [ec.gen_try(rng, "try" if i % 3 else "errts") for i in range(n)]
+    progs += [ec.gen_sched_capture(rng) for _ in range(n // 2)]     # capturing nodes that own a scheduler
     return [ec.engine_stream("engine-capture", progs)]
 
 
-monitor = ep.monitor_for(ID)
+_mon = ep.monitor_for(ID)
+
+
+def monitor(stream, case, out):
+    # a captured failure must not disturb the failing node's own later wake-ups either:
+    # for capture programs every deviation from the dataflow reading belongs to C15
+    dev, _ = ep.deviations(case, out)
+    return ["[%s] %s" % (c, m) for c, m in dev if c in ("error", "times", "userrun", "result")][:3]
 features = ep.features
 alarm_filter = ep.alarm_filter
 
